@@ -130,6 +130,12 @@ fn hsts_toks(h: &Option<HstsConfig>) -> [Tok; 2] {
     }
 }
 
+fn with_count(mut head: Vec<Tok>, tail: Vec<Tok>) -> Vec<Tok> {
+    head.push(tn(tail.len()));
+    head.extend(tail);
+    head
+}
+
 fn tags_toks(t: &BTreeMap<String, String>) -> Vec<Tok> {
     let mut v = vec![tn(t.len())];
     for (k, x) in t {
@@ -156,7 +162,10 @@ fn listener_recs(s: &ConfigState, pool: &Pool) -> Vec<Vec<Tok>> {
             on(l.h2_max_header_list_size), on(l.h2_stream_idle_timeout_seconds), on(l.h2_max_rst_stream_lifetime),
             tn(-1), os(&l.sozu_id_header),
         ]);
-        out.push(r);
+        let mut e = vec![ob(l.elide_x_real_ip.or(Some(false))), ob(l.send_x_real_ip.or(Some(false)))];
+        e.extend(tags_toks(&l.answers));
+        e.extend([tn(0), tn(0), tn(-1)]);
+        out.push(with_count(r, e));
     }
     for l in s.https_listeners.values() {
         let h = hsts_toks(&l.hsts);
@@ -177,7 +186,14 @@ fn listener_recs(s: &ConfigState, pool: &Pool) -> Vec<Vec<Tok>> {
             on(l.h2_max_header_list_size), on(l.h2_stream_idle_timeout_seconds), on(l.h2_max_rst_stream_lifetime),
             ob(l.strict_sni_binding), os(&l.sozu_id_header),
         ]);
-        out.push(r);
+        let mut e = vec![ob(l.elide_x_real_ip.or(Some(false))), ob(l.send_x_real_ip.or(Some(false)))];
+        e.extend(tags_toks(&l.answers));
+        e.push(tn(l.versions.len()));
+        e.extend(l.versions.iter().map(|v| tn(*v)));
+        e.push(tn(l.cipher_list.len()));
+        e.extend(l.cipher_list.iter().map(|c| tb(c.as_bytes())));
+        e.push(tn(l.send_tls13_tickets));
+        out.push(with_count(r, e));
     }
     for l in s.tcp_listeners.values() {
         let mut r = vec![
@@ -188,6 +204,7 @@ fn listener_recs(s: &ConfigState, pool: &Pool) -> Vec<Vec<Tok>> {
         ];
         r.push(tn(8));
         r.extend((0..8).map(|_| tn(-1)));
+        r.push(tn(0));
         out.push(r);
     }
     for l in s.udp_listeners.values() {
@@ -199,6 +216,7 @@ fn listener_recs(s: &ConfigState, pool: &Pool) -> Vec<Vec<Tok>> {
         ];
         r.push(tn(8));
         r.extend((0..8).map(|_| tn(-1)));
+        r.push(tn(0));
         out.push(r);
     }
     out
@@ -219,12 +237,15 @@ fn cluster_recs(s: &ConfigState) -> Vec<Vec<Tok>> {
                 ]),
                 None => r.extend([tn(0), tn(-1), tn(-1), tn(-1), tn(-1), tn(-1), tn(-1)]),
             }
-            r.push(tn(9));
-            r.extend([on(c.max_connections_per_ip), on(c.retry_after), on(c.https_redirect_port), os(&c.www_authenticate)]);
+            let mut p = vec![on(c.max_connections_per_ip), on(c.retry_after), on(c.https_redirect_port), os(&c.www_authenticate)];
             match &c.udp {
-                Some(u) => r.extend([tn(1), on(u.affinity_key), on(u.responses), on(u.requests), ob(u.send_proxy_protocol)]),
-                None => r.extend([tn(-1), tn(-1), tn(-1), tn(-1), tn(-1)]),
+                Some(u) => p.extend([tn(1), on(u.affinity_key), on(u.responses), on(u.requests), ob(u.send_proxy_protocol)]),
+                None => p.extend([tn(-1), tn(-1), tn(-1), tn(-1), tn(-1)]),
             }
+            p.extend(tags_toks(&c.answers));
+            p.push(tn(c.authorized_hashes.len()));
+            p.extend(c.authorized_hashes.iter().map(|h| tb(h.as_bytes())));
+            let r = with_count(r, p);
             r
         })
         .collect()
@@ -241,11 +262,14 @@ fn front_recs(s: &ConfigState) -> Vec<Vec<Tok>> {
                 h[0].clone(), h[1].clone(),
             ];
             r.extend(tags_toks(&f.tags.clone().unwrap_or_default()));
-            r.push(tn(8));
-            r.extend([
+            let mut p = vec![
                 on(f.redirect), on(f.redirect_scheme), ob(f.required_auth), os(&f.rewrite_host), os(&f.rewrite_path),
                 on(f.rewrite_port), os(&f.redirect_template), tn(f.headers.len()),
-            ]);
+            ];
+            for h in &f.headers {
+                p.extend([tn(h.position), tb(h.key.as_bytes()), tb(h.val.as_bytes())]);
+            }
+            let r = with_count(r, p);
             out.push(r);
         }
     }
